@@ -382,6 +382,8 @@ def _c08_check(reg, case):
     sim, real, kind = _data(rnd, kind=rnd.choice(["normal", "walk", "ties"]), E=rnd.choice([2, 3]),
                             N=rnd.choice([12, 25]))
     E, N, D = sim.shape
+    if which == "msm_user" and np.any(real[::3] == 0):
+        return None     # standardised moments divide by the real moments (here: every third real value): inadmissible data
     weights = np.array([rnd.choice([0.0, 0.5, 1.0, 2.0]) for _ in range(D)])
     filters = [rnd.choice([None, shift_filter, half_filter]) for _ in range(D)]
     with warnings.catch_warnings():
